@@ -1,6 +1,139 @@
 import Driver.Util
-open Lean
+import ProcSim.Model.Sim
+import ProcSim.Spec.Sim
+/-!
+Op `"sim"`:
+```
+{"op":"sim","proc":{"in":[unit…],"out":[{"model":unit,"preds":[name…]}…],"inout":[unit…],"internal":[{…}]},
+ "prog":[{"srcs":[…],"dst":"R1","cap":"ALU"}…],
+ "impl":{"outcome":"done"|"stall"|"exc","table":[ [ [unit,[[idx,"U"|"S"|"D"]…]] … ] … ], "exc":"TypeName"}}
+unit = {"name","width","caps":[…],"rd":bool,"wr":bool,"acl":[…]}
+```
+answer: `{"wf":bool,"model":{"outcome","table"(canonical),"fault"?},"k":{"C01":bool…},"o":{"C01":null|"clause"…},
+         "stats":{…}}`
+-/
+open Lean ProcSim ProcSim.Spec
 namespace Driver.SimOps
-/-- stub: filled in by the Sim component -/
-def handle : Driver.Handler := fun _ _ => none
+
+abbrev S := String
+
+def parseUnit (j : Json) : Except String (UnitM S) := do
+  return { name := ← getStr j "name", width := ← getNat j "width", caps := ← getStrs j "caps",
+           rd := ← getBool j "rd", wr := ← getBool j "wr", acl := ← getStrs j "acl" }
+
+def parseFU (j : Json) : Except String (FuncU S) := do
+  return { model := ← parseUnit (← j.getObjVal? "model"), preds := ← getStrs j "preds" }
+
+def parseProc (j : Json) : Except String (Proc S) := do
+  return { inPorts := ← (← getArr j "in").mapM parseUnit,
+           outPorts := ← (← getArr j "out").mapM parseFU,
+           inOut := ← (← getArr j "inout").mapM parseUnit,
+           internal := ← (← getArr j "internal").mapM parseFU }
+
+def parseInstr (j : Json) : Except String (Instr S) := do
+  return { srcs := ← getStrs j "srcs", dst := ← getStr j "dst", cap := ← getStr j "cap" }
+
+def parseStall (s : String) : Except String Stall :=
+  match s with
+  | "U" => pure .U | "S" => pure .S | "D" => pure .D
+  | _ => throw s!"bad label {s}"
+
+def parseHI (j : Json) : Except String HI := do
+  match ← asArr j with
+  | [i, l] => return { idx := ← i.getNat?, st := ← parseStall (← l.getStr?) }
+  | _ => throw "bad hosted instr"
+
+def parseRow (j : Json) : Except String (Util S) := do
+  let ents ← asArr j
+  ents.foldlM (fun (u : Util S) e => do
+    match ← asArr e with
+    | [n, l] =>
+      let n ← n.getStr?
+      let his ← (← asArr l).mapM parseHI
+      return u.set n (u.get n ++ his)
+    | _ => throw "bad row entry") ([] : Util S)
+
+def parseTable (j : Json) : Except String (List (Util S)) := do (← asArr j).mapM parseRow
+
+/-- canonical row: non-empty units sorted by name, entries sorted -/
+def canonRow (u : Util S) : List (S × List HI) :=
+  isort (fun a b => decide ¬ (b.1 < a.1)) ((Util.items u).map (fun e => (e.1, sortHI e.2)))
+
+def canonTable (t : List (Util S)) : List (List (S × List HI)) := t.map canonRow
+
+def rowJson (r : List (S × List HI)) : Json :=
+  jarr (r.map (fun (n, l) => jarr [Json.str n, jarr (l.map (fun h => jarr [jnat h.idx, Json.str h.st.code]))]))
+
+def tableJson (t : List (Util S)) : Json := jarr ((canonTable t).map rowJson)
+
+/-! projections π_xx (DESIGN §2): what each property's correspondence compares -/
+
+def ctxOf (p : Proc S) (prog : List (Instr S)) (tbl : List (Util S)) (stalled : Bool) : Ctx S :=
+  { p := p, prog := prog, tbl := tbl, stalled := stalled }
+
+def pi01 (c : Ctx S) : List (List Nat × List Nat) := (List.range c.n).map (fun i => (c.accs false i, c.accs true i))
+def pi04 (c : Ctx S) : List (List (S × Nat)) := (canonTable c.tbl).map (fun r => r.map (fun e => (e.1, e.2.length)))
+def pi05 (c : Ctx S) : List Nat := (List.range c.T).map (memEntries c)
+def pi06 (c : Ctx S) : List (Option (Nat × S)) :=
+  (List.range c.n).map (fun i => (c.positions i).head?.map (fun x => (x.1, x.2.1.name)))
+def pi07 (c : Ctx S) : List (List (S × List (Nat × Bool))) :=
+  (canonTable c.tbl).map (fun r => r.map (fun e => (e.1, e.2.map (fun h => (h.idx, h.st == .D)))))
+def pi08 (c : Ctx S) : Bool × Nat × Option (List (S × List HI)) := (c.stalled, c.T, (canonTable c.tbl).getLast?)
+
+def kJson (cm ci : Ctx S) : Json :=
+  let whole := canonTable cm.tbl == canonTable ci.tbl
+  Json.mkObj [
+    ("C01", pi01 cm == pi01 ci), ("C02", whole), ("C03", whole && cm.stalled == ci.stalled),
+    ("C04", pi04 cm == pi04 ci), ("C05", pi05 cm == pi05 ci), ("C06", pi06 cm == pi06 ci),
+    ("C07", pi07 cm == pi07 ci), ("C08", pi08 cm == pi08 ci)]
+
+def oJson (c : Ctx S) : Json :=
+  Json.mkObj ((simClauses c).map (fun (id, cl) => (id, match cl.firstFail with
+    | none => Json.null
+    | some s => Json.str s)))
+
+def statsJson (c : Ctx S) : Json :=
+  let labels := (List.range c.n).flatMap (fun i => (c.positions i).map (·.2.2))
+  Json.mkObj [
+    ("cycles", jnat c.T), ("issued", jnat c.enteredCount),
+    ("D", jnat (labels.filter (· == .D)).length), ("S", jnat (labels.filter (· == .S)).length),
+    ("mem", jnat ((List.range c.T).map (memEntries c)).sum)]
+
+def handleSim (j : Json) : Except String Json := do
+  let p ← parseProc (← j.getObjVal? "proc")
+  let prog ← (← getArr j "prog").mapM parseInstr
+  let wf := wfProc p
+  let out := simulate p prog
+  let (mkind, mtbl, mfault) : String × List (Util S) × String := match out with
+    | .done t => ("done", t, "")
+    | .stall t => ("stall", t, "")
+    | .fault f => ("fault", [], toString (repr f))
+  let cm := ctxOf p prog mtbl (mkind == "stall")
+  let modelJ := Json.mkObj [("outcome", mkind), ("table", tableJson mtbl), ("fault", mfault)]
+  match optField j "impl" with
+  | none =>
+    return Json.mkObj [("wf", wf), ("model", modelJ), ("o", if mkind == "fault" then Json.null else oJson cm),
+                       ("stats", statsJson cm)]
+  | some ij =>
+    let ikind ← getStr ij "outcome"
+    if ikind == "done" || ikind == "stall" then
+      let itbl ← parseTable (← ij.getObjVal? "table")
+      let ci := ctxOf p prog itbl (ikind == "stall")
+      let k := if mkind == "fault" then
+          Json.mkObj (["C01","C02","C03","C04","C05","C06","C07","C08"].map (fun id => (id, Json.bool false)))
+        else kJson cm ci
+      return Json.mkObj [("wf", wf), ("model", modelJ), ("k", k), ("o", oJson ci), ("stats", statsJson ci)]
+    else
+      -- another exception escaped from the implementation: only C08 speaks about that
+      let ids := ["C01","C02","C03","C04","C05","C06","C07"]
+      let k := Json.mkObj (ids.map (fun id => (id, Json.bool true)) ++ [("C08", Json.bool (mkind == "fault"))])
+      let o := Json.mkObj (ids.map (fun id => (id, Json.null)) ++
+        [("C08", Json.str "an exception other than the stall error escaped")])
+      return Json.mkObj [("wf", wf), ("model", modelJ), ("k", k), ("o", o), ("stats", statsJson cm)]
+
+def handle : Driver.Handler := fun op j =>
+  match op with
+  | "sim" => some (handleSim j)
+  | _ => none
+
 end Driver.SimOps
